@@ -448,7 +448,7 @@ class C02(fw.Property):
         def is_net(name): return is_lib(name) and issubclass(getattr(E, name), E.NetworkError)
         R = {}                      # q -> bookkeeping
         shut = False
-        refusing = set(); refusal_used = False      # remotes for which the transport currently refuses datagrams synchronously
+        refusing = set()      # remotes for which the transport currently refuses datagrams synchronously
         def outstanding(): return [x for x in R.values() if x["live"]]
         def matches(x, tok, r): return x["live"] and x["tok"] == tok and (x["mc"] or x["r"] == r)
         for ev, outs in zip(inp["events"], res["trace"]):
@@ -560,7 +560,7 @@ class C02(fw.Property):
                 x = R.get(ev[1])
                 if x is not None and x["obs"] and x["live"] and x["done"] is not None and x["done"][0] == "result": x["obs_cancelled"] = True
             elif k == "refuse":
-                if ev[2]: refusing.add(ev[1]); refusal_used = True
+                if ev[2]: refusing.add(ev[1])
                 else: refusing.discard(ev[1])
             elif k == "shutdown" and not shut:
                 for x in outstanding():
@@ -578,10 +578,9 @@ class C02(fw.Property):
             for o in outs:
                 if o[0] == "obserr" and o[1] in R: R[o[1]]["live"] = False
                 if o[0] == "exception" and o[1] in R and k in ("fire",): pass
-            # KeyError / AssertionError out of MessageManager._continue_backlog / _retransmit after a synchronous refusal are
-            # message-layer bookkeeping faults (notes/C02.md, side observations); every request is failed by the error fan-out
-            # first, so they are not C02 violations. Anything else that escapes is reported.
-            if escaped and not (refusal_used and all(e in ("KeyError", "AssertionError") for e in escaped)):
+            # nothing may escape from the library into the transport / the event loop (since 11456f9 and 8d04b7c this also holds
+            # under refusing transports: no KeyError out of _continue_backlog, no resurrected exchange raising later)
+            if escaped:
                 return ("C02:exception-escaped:%s:%s%s" % (escaped[0], k, mcpend), "%s escaped from the library while processing %r" % (escaped[0], ev))
             if any(o[0] == "crash" for o in outs): return ("C02:model-crash", "%r" % (outs,))
         fin = res["final"]
